@@ -13,11 +13,11 @@ P = {
          "alignUp axioms (align_offset saturates at u32::MAX, C04-E6a); map backings: offset and maximum alignment are validated against the page alignment (A6, A7).", "3.C03", "affine value numbering + order prover (alignment/capacity terms)"),
  "C04": ("Decides read-only guard first, capacity guard dominance, no effect before any Err (single-thread projection), checked arithmetic on request sizes, enumerated panic sites, and that every Add/Sub/Mul and every narrowing cast of a type size reachable from the allocation entry points is bounded by guards / type widths or by a named arena invariant. Does not decide 'state exactly as before' beyond absence of effects.",
          "Arena invariants named in ARITH_JUSTIFIED (list / Meta extents below cap) are taken from C01 / C03 / C10.", "3.C04", "taint of request sizes to arithmetic sites + effect/dominance rules + order prover (Fourier-Motzkin) on every arithmetic site"),
- "C05": ("Decides the persistence discipline (state only in the in-file header, offsets only, reopen writes only above the stored cursor, caches derived from the file). Does not decide equality of observations across reopen over histories.",
+ "C05": ("Decides the persistence discipline (state only in the in-file header, offsets only, reopen writes only above the stored cursor, caches derived from the file, and the open functions refuse a stored cursor only when it is outside [data_offset, mapped length]). Does not decide equality of observations across reopen over histories.",
          "OS page cache and memmap2 semantics.", "3.C05", "who-writes / provenance / effect rules over MIR"),
  "C06": ("Decides the order of persistent writes inside each operation (incl. clear: unpublish before wipe; creation: header before identification bytes), that reopen validates the stored cursor and re-zeroes above it; reports the unrecoverable mark window. Does not decide crash behaviour over crash points x histories.",
          "Program order = persistence order for a killed process (shared mapping).", "3.C06", "write-ordering dominance rules + recovery reachability (call graph)"),
- "C07": ("Decides that every loop cycle carries a progress token (a wait on a marker counts only if the cycle re-reads the link it followed), that every marker completes or undoes its mark, and that the marker value is unambiguous. Does not decide termination under fairness in general.",
+ "C07": ("Decides that every loop cycle carries a progress token (a wait on a marker counts only if the cycle re-reads the link it followed), that every marker completes or undoes its mark, that the marker value is unambiguous, and that a pop unlinks only from a word known to be linked (the pessimistic pop does not: known finding T6). Does not decide termination under fairness in general.",
          "Failed CAS => another thread progressed; list finite (C10).", "3.C07", "loop classification + mark/unlink pairing on CAS outcome edges"),
  "C08": ("Decides that every returned alloc_bytes buffer is zeroed over exactly its accessible extent on all paths, all backends.",
          "ptr::write_bytes model; exclusivity from C01/C02.", "3.C08", "must-pass-through (clear after last extent store) + term rule on Meta::clear"),
@@ -27,17 +27,17 @@ P = {
          "-", "3.C10", "comparator/guard term rules + sibling agreement"),
  "C11": ("Decides agreement of guarded-effect summaries of paired sync/unsync functions under the single-thread projection of sync (guard sets compared syntactically after canonicalisation, then by mutual implication of the exact path-condition DNFs); tolerated differences listed by key.",
          "CAS = compare + store on one thread; failed pop is effect-free (C04-E3).", "3.C11", "sibling comparison of guarded-effect summaries"),
- "C12": ("Decides the minimal memory orderings per protocol role and acquire-before-unmount; each requirement has a written racy counter-execution (Appendix A.3); harmless sites unconstrained.",
+ "C12": ("Decides the minimal memory orderings per protocol role and acquire-before-unmount; each requirement has a written racy counter-execution (Appendix A.3); harmless sites unconstrained; the crate's own unsafe Send / Sync impls bound every type parameter of the handle (also a compile-fail witness).",
          "C11 memory model reasoning is by hand; stale-reader hazard excluded (see C02).", "3.C12", "memory-ordering lattice per protocol role (data-flow roles)"),
  "C13": ("Decides drop/detach/to_owned pairing on every path (incl. zero-sized values), the refcount discipline, who may construct/free, no double drop of owned fields, truncate only on an exclusively owned arena, and lifetime witnesses. refs() = live values follows by Rust's drop-exactly-once.",
          "No mem::forget of arenas by the user is assumed for 'released exactly once'.", "3.C13", "path-count dataflow on Drop/to_owned + who-may-call + compile-fail witnesses"),
- "C14": ("Decides guard-before-write for every writer, converter agreement for all 120 put/get bodies, align_to/put_aligned/set_len/varint terms, for symbolic len/capacity/T.",
+ "C14": ("Decides guard-before-write for every writer, converter agreement for all 120 put/get bodies, align_to/put_aligned/set_len/varint terms (the aligned pointer lies inside the buffer, a zero-sized put does not use the buffer position), for symbolic len/capacity/T.",
          "dbutils::leb128 trusted.", "3.C14", "guard dominance + affine terms + resolved-callee agreement over macro-generated families"),
- "C15": ("Decides guards, slice terms and converters of all arena-level readers incl. overflow of offset + SIZE.",
+ "C15": ("Decides guards, slice terms and converters of all arena-level readers incl. overflow of offset + SIZE and the error kind of a varint cut off by allocated().",
          "dbutils::leb128 trusted.", "3.C15", "guard dominance + taint to arithmetic + resolved-callee agreement"),
- "C16": ("Decides agreement of the layout formula sites, constructor write sets, accessor provenance, backend independence. Byte equality across backends over histories is a consequence, not checked.",
+ "C16": ("Decides agreement of the layout formula sites, constructor write sets, accessor provenance, backend independence, the range locked by lock_meta. Byte equality across backends over histories is a consequence, not checked.",
          "bitflags constants from the crate's own definitions.", "3.C16", "term agreement across sibling formula sites + provenance"),
- "C17": ("Decides per-path clamp terms and must-store of rewind, overflow-freedom of the Current arm, and the terms written by clear.",
+ "C17": ("Decides per-path clamp terms and must-store of rewind, overflow-freedom of the Current arm, the terms written by clear, and that a release after clear / rewind (a range above the cursor) has no effect.",
          "0 <= data_offset <= cap.", "3.C17", "must-pass-through + clamp terms + taint"),
  "C18": ("Decides ro guard, floor, copy length, cap/ptr refresh, absence of header effects, exclusivity (refs() == 1), the u32 bound of the request, failure atomicity of the file arm and the copy-on-write mode.",
          "Re-map failure paths not judged.", "3.C18", "dominance + term + effect rules on truncate"),
